@@ -100,6 +100,10 @@ def run(ctx):
             cmds = [{"k": "add", "regex": ".*", "operation": "*", "cfg": cfg, "alg": "min_max_uniform_quantize"}]
             info["tags"].add("same_scale_ops_with_fused_activations")
             return fp.Case(mb, info, cmds=cmds, data=data, desc=[("same-scale ops", ".*", "*", cfg["act"]["bits"])])
+        if i % 10 == 9:
+            # ONE constant tensor read by several operators (tied weights / a shared bias) under per-reader rules: every reader that is
+            # quantized must find the parameters ITS config prescribes, or the recipe is refused
+            return fp.gen_tied_case(rng, i)
         return fp.gen_case(rng, i)
     fp.explore(ctx, drv, 600 if ctx.tier == "quick" else 3000, per_case, gen=gen, graph_corr=False, mat_corr=True)
     # "... under the configured bit width, symmetry and GRANULARITY": BLOCKWISE weights (reachable with skip_checks only; emulated
@@ -119,7 +123,8 @@ def run(ctx):
                 continue
             w = np.frombuffer(bytes(np.asarray(mi.buffers[tw.buffer].data, dtype=np.uint8)), dtype="<f4").astype(np.float64).reshape([int(x) for x in tw.shape])
             o, f = w.shape
-            sc_t = next((t for t in mo.subgraphs[0].tensors if pl.tname(t).startswith(pl.tname(tw) + "_scale")), None)
+            sc_t = next((t for t in mo.subgraphs[0].tensors if pl.tname(t).startswith(pl.tname(tw) + "_scale") and t.type == pl.TT.FLOAT32
+                         and mo.buffers[t.buffer].data is not None and len(mo.buffers[t.buffer].data)), None)   # (not a name-hazard activation)
             if sc_t is None:
                 continue
             sc = np.frombuffer(bytes(np.asarray(mo.buffers[sc_t.buffer].data, dtype=np.uint8)), dtype="<f4").astype(np.float64)
@@ -133,7 +138,8 @@ def run(ctx):
     try:
         fp.blockwise_probe(ctx, drv, interp, 6 if ctx.tier == "quick" else 40, extra=blockwise_scales, only_8_bits=True)
     except Exception as e:  # noqa: BLE001
-        ctx.fail(f"the BLOCKWISE probe could not run ({type(e).__name__}: {str(e)[:100]})", {}, "blockwise-probe-crash")
+        import traceback
+        ctx.fail(f"the BLOCKWISE probe could not run ({type(e).__name__}: {str(e)[:100]})", {"traceback": traceback.format_exc()[-1500:]}, "blockwise-probe-crash")
     interp.close()
     drv.close()
     return common.finish(ctx)
